@@ -384,6 +384,7 @@ func Systematic() []sysCase {
 					rsp := make([]PluginRsp, NPlugins)
 					for i := range rsp {
 						rsp[i].Name = PluginName(i)
+						rsp[i].Inst = i
 						rsp[i].Updates = []JUpdate{}
 					}
 					switch shape {
@@ -601,7 +602,7 @@ func (g *Gen) Random(i int) (string, CaseIn) {
 		active[p] = true
 	}
 	for p := 0; p < NPlugins; p++ {
-		rsp := PluginRsp{Name: PluginName(p), Updates: []JUpdate{}}
+		rsp := PluginRsp{Name: PluginName(p), Inst: p, Updates: []JUpdate{}}
 		if active[p] {
 			if kind == "create" && g.chance(0.9) {
 				rsp.Adjust = g.randomAdjust(p, stray)
@@ -618,7 +619,7 @@ func (g *Gen) Random(i int) (string, CaseIn) {
 func (g *Gen) Malformed(i int) (string, CaseIn) {
 	in := CaseIn{Kind: "create", Container: BaseContainer("ctr0", g.R, 0.5), Stream: "malformed"}
 	for p := 0; p < NPlugins; p++ {
-		in.Plugins = append(in.Plugins, PluginRsp{Name: PluginName(p), Updates: []JUpdate{}})
+		in.Plugins = append(in.Plugins, PluginRsp{Name: PluginName(p), Inst: p, Updates: []JUpdate{}})
 	}
 	who := g.R.Intn(NPlugins - 1)
 	a := NewAdjust()
@@ -656,4 +657,48 @@ func (g *Gen) Malformed(i int) (string, CaseIn) {
 		a.Mounts = append(a.Mounts, JMount{Destination: "", Options: []string{}})
 	}
 	return fmt.Sprintf("mal-%d", i), in
+}
+
+// Twins enumerates, for every item kind and path, chains over the twins rig (two plugin
+// instances with the same index-name, one ordinary plugin): both twins set the item (must
+// fail), a twin and the ordinary plugin set it (must fail), the twins set different items
+// (must succeed). Relative order of the twins is unspecified, so only the success/failure
+// predicates are evaluated on these cases.
+func Twins() []sysCase {
+	var out []sysCase
+	paths := []struct{ kind, path, target string }{
+		{"create", "adjust", ""}, {"create", "update", "ctrA"}, {"update", "update", "ctrA"},
+		{"update", "update", "ctr0"}, {"stop", "update", "ctrA"},
+	}
+	for _, it := range AllItems() {
+		for _, p := range paths {
+			if p.path == "update" && !IsResource(it.Kind) {
+				continue
+			}
+			for _, shape := range []string{"twins-collide", "twin-and-other", "twins-disjoint"} {
+				in := CaseIn{Kind: p.kind, Container: BaseContainer("ctr0", nil, 0), Stream: "twins"}
+				if p.kind == "update" {
+					in.Resources = FullResources(nil, 0)
+				}
+				rsp := make([]PluginRsp, len(TwinNames))
+				for i := range rsp {
+					rsp[i] = PluginRsp{Name: TwinNames[i], Inst: i, Updates: []JUpdate{}}
+				}
+				switch shape {
+				case "twins-collide":
+					setOn(&rsp[0], p.path, p.target, it, 0, 0, false)
+					setOn(&rsp[1], p.path, p.target, it, 1, 0, false)
+				case "twin-and-other":
+					setOn(&rsp[1], p.path, p.target, it, 1, 0, false)
+					setOn(&rsp[2], p.path, p.target, it, 2, 0, false)
+				case "twins-disjoint":
+					setOn(&rsp[0], p.path, p.target, it, 0, 0, false)
+					setOn(&rsp[1], p.path, p.target, otherItem(it), 1, 0, false)
+				}
+				in.Plugins = rsp
+				out = append(out, sysCase{fmt.Sprintf("twin-%s%s-%s-%s%s-%s", it.Kind, it.Key, p.kind, p.path, p.target, shape), in})
+			}
+		}
+	}
+	return out
 }
